@@ -562,7 +562,7 @@ impl Prop for C10Prop {
         vec![Section {
             name: "random",
             kind: SectionKind::Random {
-                cases: tier.pick(2_000, 20_000),
+                cases: tier.pick(2_000, 12_000),
                 maxlen: 6000,
             },
             exhaustive: false,
